@@ -6,6 +6,8 @@ The timed N-station composition is not proved (DESIGN 5.5).
 -/
 import ProfiVerif.Lemmas.TokenRing
 import ProfiVerif.Lemmas.Neighbours
+import ProfiVerif.Lemmas.AbstractRing
+import ProfiVerif.Props.C12
 
 namespace PV.C02
 open PV PV.TokenRing
@@ -219,13 +221,8 @@ theorem neighbours_learned (ts : Nat) (S : List Nat) (hS : Ring S) (sa da : Nat)
   have hl := (las_learns ts S hS sa da hsa hda hwrap).2
   have hnb : Nbr r3 := witnessAll_nbr _ _ (witnessAll_nbr _ _ (witness_nbr _ sa da (new_nbr ts)))
   have hts : r3.ts = ts := by
-    have key : ∀ (ps : List (Nat × Nat)) (r : TokenRing), (witnessAll r ps).ts = r.ts := by
-      intro ps
-      induction ps with
-      | nil => intro r; rfl
-      | cons p t ih => intro r; exact (ih _).trans (witness_ts r p.1 p.2)
     show (witnessAll _ _).ts = ts
-    rw [key, key, witness_ts]; rfl
+    rw [witnessAll_ts, witnessAll_ts, witness_ts]; rfl
   have := neighbours_ring r3 S hS hnb hl
   rw [hts] at this
   exact ⟨this.1, this.2.1, this.2.2.2.2⟩
@@ -244,6 +241,140 @@ theorem neighbours_tracked (r : TokenRing) (S' : List Nat) (hS : Ring S') (hn : 
   have := neighbours_ring r' S' hS (witnessAll_nbr _ _ hn) hl
   exact ⟨this.1, this.2.1, this.2.2.2.2⟩
 
+
+/-! ## Abstract ring (DESIGN 5.5)
+
+`Model/AbstractRing.lean`: N stations, untimed, one atomic step per telegram.  **This part is an
+idealisation, not a model of existing code, and it is not tied to the implementation by a
+correspondence run** (the N-station behaviour of the code is tied by the `net` engine).  It
+documents why the mechanism works.  What it shares with the code-level models: every station's ring
+view is a real `TokenRing` changed only through `witness` / `setNextStation` / `removeStation` /
+`claimToken` / `new`, and the GAP cursor moves by the real `nextGapPoll`; the proofs below rest on
+`neighbours`, the LAS pass lemmas and the C12 sweep theorems. -/
+
+open PV.AbstractRing
+
+theorem Ring.isRing {S : List Nat} (h : Ring S) : IsRing S := ⟨h.ne, h.asc, h.bound⟩
+
+/-- **`token_unique`**: in every state reachable (by token passes incl. retries, GAP polls, dropping a
+dead successor, stations joining/leaving, a claim when nobody holds a token) from a state with at
+most one token holder, at most one station holds the token. -/
+theorem token_unique (s0 s : Net) (h0 : Unique s0) (hr : Reach s0 s) : Unique s :=
+  unique_reach s0 s h0 hr
+
+/-- **`agreement_invariant`**: once the members are exactly `M`, each with a valid LAS equal to `M`
+(and NS/PS derived from it), a token pass by the holder keeps all of that — for every station: the
+sender (witnesses its own pass), the receiver (takes the token from its PS without witnessing), every
+other member — and the new holder is the cyclic successor. -/
+theorem agreement_invariant (s : Net) (M : List Nat) (h : Nat) (ag : Agreed s M h) :
+    Step s (pass s h) ∧ Agreed (pass s h) M (cycSucc h M) := by
+  obtain ⟨nh, e, hm, _⟩ := agreed_holder_node s M h ag
+  exact ⟨Step.pass s h nh e hm, agreed_pass s M h ag⟩
+
+/-- **`ascending_rotation`**: in an agreeing ring the token visits the members in ascending cyclic
+address order: starting at the `i`-th member, after `k` passes it is at the `(i+k) mod |M|`-th member,
+agreement still holds, and the token telegrams on the bus were `M[i+j] → M[i+j+1]`, `j < k`. -/
+theorem ascending_rotation (s : Net) (M : List Nat) (i k : Nat) (ag : Agreed s M (nth M i)) :
+    Agreed (rotate s (nth M i) k).1 M (nth M (i + k)) ∧ (rotate s (nth M i) k).2.1 = nth M (i + k) ∧
+    (rotate s (nth M i) k).2.2 = (List.range k).map (fun j => (nth M (i + j), nth M (i + j + 1))) :=
+  agreed_rotate M k s i ag
+
+/-- … in particular one full rotation from the lowest address puts exactly `rotation M` on the bus —
+the pass sequence the LAS theorems (`las_learns`, `las_stable`, `las_tracks`) are about — and returns
+the token to the lowest address. -/
+theorem ascending_rotation_full (s : Net) (M : List Nat) (ag : Agreed s M (nth M 0)) :
+    (rotate s (nth M 0) M.length).2.2 = rotation M ∧ (rotate s (nth M 0) M.length).2.1 = nth M 0 ∧
+    Agreed (rotate s (nth M 0) M.length).1 M (nth M 0) := by
+  have := agreed_rotate M M.length s 0 ag
+  rw [Nat.zero_add, show nth M M.length = nth M 0 by simpa using nth_add_length M 0] at this
+  refine ⟨?_, this.2.1, this.1⟩
+  rw [this.2.2, rotation_eq_map M ag.ring.ne]
+  apply List.map_congr_left
+  intro j _
+  simp
+
+/-- The addresses a sweep polls before `a` come before `a` in the cyclic order behind TS. -/
+theorem sweep_prefix_before (ts ns hsa a : Nat) (hts : ts < hsa) (hh2 : hsa ≤ 126) (post : List Nat) :
+    ∀ (pre : List Nat) (fuel cur : Nat), cur < hsa → sweepFrom ts ns hsa fuel cur = pre ++ a :: post →
+      ∀ b ∈ pre, off ts hsa b < off ts hsa a := by
+  intro pre
+  induction pre with
+  | nil => intro _ _ _ _ b hb; cases hb
+  | cons c pre' ih =>
+    intro fuel cur hc hsw b hb
+    cases fuel with
+    | zero => simp [sweepFrom] at hsw
+    | succ f =>
+      unfold sweepFrom at hsw
+      cases hn : nextGapPoll ts ns hsa cur with
+      | poll x =>
+        rw [hn] at hsw
+        simp only [List.cons_append, List.cons.injEq] at hsw
+        have hx := C12.next_gap_in_gap ts ns hsa cur x (by omega) hh2 hc hn
+        rw [hsw.1] at hx
+        rw [hsw.1] at hsw
+        simp only [List.mem_cons] at hb
+        rcases hb with rfl | hb
+        · exact C12.sweep_ascending ts ns hsa hts hh2 f b hx.1 a (by rw [hsw.2]; simp)
+        · exact ih f c hx.1 hsw.2 b hb
+      | waiting => rw [hn] at hsw; simp at hsw
+      | panic => rw [hn] at hsw; simp at hsw
+
+/-- **`listener_admitted`** (general cursor).  Agreeing ring `M`, token at `h`; `a` is a ready listener
+that learned `M`.  If the rest of `h`'s current GAP sweep (iterated real `next_gap_poll` from its
+cursor) reaches `a` after the addresses `pre` and no station is present at those, then after `|pre|`
+further token visits at `h` (one GAP poll per visit, a full rotation in between — during which
+agreement, the listener's readiness and `h`'s NS are preserved) the next poll finds `a`: `h` makes it
+its NS by `set_next_station`, and `h`'s token pass gives `a` the token (it accepts: `h` is its PS). -/
+theorem listener_admitted_sweep (s : Net) (M : List Nat) (h a H : Nat) (pre post : List Nat) (g : Option Nat)
+    (fuel : Nat) (hH : H ≤ 126) (hh : h < H) (inv : SweepInv s M h h a pre g H) (hcur : g.getD h < H)
+    (hsw : sweepFrom h (cycSucc h M) H fuel (g.getD h) = pre ++ a :: post) :
+    let s1 := gapPoll (visits s h M.length pre.length) h
+    (∃ nh, s1.node h = some nh ∧ nh.mode = .hold ∧ nh.ring.ns = a) ∧
+    (∃ nh, (pass s1 h).node h = some nh ∧ nh.mode = .idle ∧ nh.ring.ns = a) ∧
+    (∃ na, (pass s1 h).node a = some na ∧ na.mode = .hold ∧ ViewOk M a na.ring) := by
+  have := listener_admitted_aux M h a H hH hh post pre fuel s g inv hcur hsw
+  exact ⟨this.2.2, this.1, this.2.1⟩
+
+/-- **`listener_admitted`**: a ready listener `a` that lies in the GAP of the member `h` (which then is
+its PS) and is the first station present in that GAP (in sweep order) is admitted within one sweep:
+starting from the beginning of `h`'s sweep, after `k` token visits at `h` with `k + 1 ≤ HSA - 1` polls
+in total, `h` has adopted `a` as NS and passed it the token. -/
+theorem listener_admitted (s : Net) (M : List Nat) (h a H : Nat) (g : Option Nat) (hH : H ≤ 126) (hh : h < H)
+    (ag : Agreed s M h) (hl : ReadyListener s M a) (hhsa : s.hsa = H)
+    (hgap : ∀ nh, s.node h = some nh → nh.gap = g) (hstart : g.getD h = h)
+    (hin : InGap h (cycSucc h M) H a)
+    (hfirst : ∀ b, InGap h (cycSucc h M) H b → off h H b < off h H a → s.node b = none) :
+    ∃ k, k + 1 ≤ H - 1 ∧
+      let s1 := gapPoll (visits s h M.length k) h
+      (∃ nh, s1.node h = some nh ∧ nh.mode = .hold ∧ nh.ring.ns = a) ∧
+      (∃ nh, (pass s1 h).node h = some nh ∧ nh.mode = .idle ∧ nh.ring.ns = a) ∧
+      (∃ na, (pass s1 h).node a = some na ∧ na.mode = .hold ∧ ViewOk M a na.ring) := by
+  have hmem : a ∈ sweepFrom h (cycSucc h M) H H h := (C12.sweep_exact h _ H hh hH a).mpr hin
+  obtain ⟨pre, post, hsw⟩ := List.append_of_mem hmem
+  have hlen := C12.sweep_length h (cycSucc h M) H hh hH H h hh
+  have hoff : off h H h = 0 := (off_zero_iff h H h hh hh).mpr rfl
+  have hbefore := sweep_prefix_before h (cycSucc h M) H a hh hH post pre H h hh hsw
+  have hsound := C12.sweep_sound h (cycSucc h M) H hh hH H h hh
+  have inv : SweepInv s M h h a pre g H :=
+    ⟨ag, hl, fun b hb => hfirst b (hsound b (by rw [hsw]; simp [hb])) (hbefore b hb), hgap, hhsa⟩
+  refine ⟨pre.length, ?_, ?_⟩
+  · rw [hsw] at hlen; simp at hlen; omega
+  · have hsw' : sweepFrom h (cycSucc h M) H H (g.getD h) = pre ++ a :: post := by rw [hstart]; exact hsw
+    exact listener_admitted_sweep s M h a H pre post g H hH hh inv (by omega) hsw'
+
+
+/-- **`listener_ready`** (link from the LAS theorems to the abstract ring): a fresh listener of any
+address that witnesses a wrap-around pass and then two full rotations of `M` — which is what an
+agreeing ring puts on the bus (`ascending_rotation_full`) — has exactly the knowledge
+`listener_admitted` asks of a ready listener (valid LAS = `M`, NS/PS derived from it). -/
+theorem listener_ready (a : Nat) (M : List Nat) (hM : Ring M) (sa da : Nat) (hsa : sa ≤ 125) (hda : da ≤ 125)
+    (hwrap : da ≤ sa) :
+    ViewOk M a (witnessAll (witnessAll ((TokenRing.new a).witness sa da) (rotation M)) (rotation M)) := by
+  have h := las_learns a M hM sa da hsa hda hwrap
+  refine ⟨?_, h.1, h.2, witnessAll_nbr _ _ (witnessAll_nbr _ _ (witness_nbr _ sa da (new_nbr a)))⟩
+  rw [witnessAll_ts, witnessAll_ts, witness_ts]; rfl
+
 /-! Non-vacuity: the two-station ring {3, 9} seen by station 7, and a one-station ring. -/
 example : Ring [3, 9] := ⟨by simp, by simp [Asc], by simp⟩
 example : Ring [0] := ⟨by simp, by simp [Asc], by simp⟩
@@ -259,5 +390,83 @@ example : cycSucc 5 [5] = 5 ∧ cycPred 5 [] = 5 := by decide
 example : cycSucc 7 [20, 3, 9, 3] = 9 := by decide     -- order and repetitions are irrelevant
 example : runOps (TokenRing.new 7) [.witness 9 3, .witness 3 9, .witness 9 3, .claim, .remove 3] ≠ none := by
   decide +kernel
+
+/-! Non-vacuity of the abstract-ring theorems: ring {3, 9} with the token at 3, a ready listener at 5,
+nothing at 4; HSA = 126.  The sweep of 3's GAP is 4, 5, …, 8: one absent address, then the listener. -/
+section AbstractExample
+
+private def learnedView (ts : Nat) : TokenRing :=
+  witnessAll (witnessAll ((TokenRing.new ts).witness 9 3) (rotation [3, 9])) (rotation [3, 9])
+
+private theorem ring39 : Ring [3, 9] := ⟨by simp, by simp [Asc], by simp⟩
+
+private theorem learnedView_ok (ts : Nat) : ViewOk [3, 9] ts (learnedView ts) :=
+  listener_ready ts [3, 9] ring39 9 3 (by omega) (by omega) (by omega)
+
+private def exNet : Net where
+  hsa := 126
+  node := fun x =>
+    if x = 3 then some { mode := .hold, ring := learnedView 3, gap := none, pend := none }
+    else if x = 9 then some { mode := .idle, ring := learnedView 9, gap := none, pend := none }
+    else if x = 5 then some { mode := .listen, ring := learnedView 5, gap := none, pend := none }
+    else none
+
+private theorem exNet_agreed : Agreed exNet [3, 9] 3 := by
+  refine ⟨ring39.isRing, by simp, fun x => ?_, fun x nx ex hm => ?_, fun x nx ex => ?_⟩
+  · by_cases h3 : x = 3
+    · subst h3; simp [exNet]
+    · by_cases h9 : x = 9
+      · subst h9; simp [exNet]
+      · by_cases h5 : x = 5
+        · subst h5; simp [exNet]
+        · simp [exNet, h3, h9, h5]
+  · by_cases h3 : x = 3
+    · subst h3
+      simp only [exNet, if_true, Option.some.injEq] at ex
+      subst ex
+      exact ⟨learnedView_ok 3, rfl⟩
+    · by_cases h9 : x = 9
+      · subst h9
+        simp only [exNet, if_neg h3, if_true, Option.some.injEq] at ex
+        subst ex
+        exact ⟨learnedView_ok 9, rfl⟩
+      · by_cases h5 : x = 5
+        · subst h5
+          simp only [exNet, if_neg h3, if_neg h9, if_true, Option.some.injEq] at ex
+          subst ex
+          exact absurd rfl hm
+        · simp [exNet, h3, h9, h5] at ex
+  · by_cases h3 : x = 3
+    · subst h3
+      simp only [exNet, if_true, Option.some.injEq] at ex
+      subst ex; simp
+    · by_cases h9 : x = 9
+      · subst h9
+        simp only [exNet, if_neg h3, if_true, Option.some.injEq] at ex
+        subst ex; simp
+      · by_cases h5 : x = 5
+        · subst h5
+          simp only [exNet, if_neg h3, if_neg h9, if_true, Option.some.injEq] at ex
+          subst ex; simp
+        · simp [exNet, h3, h9, h5] at ex
+
+example : Unique exNet := by
+  intro x y nx ny ex ey hx hy
+  rw [(exNet_agreed.holder x nx ex).mp hx, (exNet_agreed.holder y ny ey).mp hy]
+
+example : Agreed exNet [3, 9] (nth [3, 9] 0) := exNet_agreed
+
+private theorem exNet_listener : ReadyListener exNet [3, 9] 5 :=
+  ⟨by simp, ⟨{ mode := .listen, ring := learnedView 5, gap := none, pend := none }, by simp [exNet], rfl,
+    learnedView_ok 5⟩⟩
+
+example : cycSucc 3 [3, 9] = 9 ∧ InGap 3 9 126 5 ∧ sweepFrom 3 9 126 126 3 = [4] ++ 5 :: [6, 7, 8] := by decide
+
+example : SweepInv exNet [3, 9] 3 3 5 [4] none 126 :=
+  ⟨exNet_agreed, exNet_listener,
+   fun b hb => by simp at hb; subst hb; simp [exNet],
+   fun nh e => by simp only [exNet, if_true, Option.some.injEq] at e; subst e; rfl, rfl⟩
+
+end AbstractExample
 
 end PV.C02
